@@ -1,1 +1,383 @@
-/-! # C09 — property theorems (not built yet) -/
+import RsMatterVerif.Lemmas.Transport
+import RsMatterVerif.Lemmas.Dedup
+/-!
+# C09 — reliable messaging delivers each message at most once and reports the truth
+
+Theorems over `Model/Transport.lean` (+ `Model/Dedup.lean` for the receive window):
+* `at_most_once`: on a secure session every counter is handed to the exchange layer at most once,
+  for every sequence of received headers (delayed, duplicated, reordered);
+* `gives_up_after_budget`, `giveup_is_timeout_not_success`: exactly `budget` retransmissions succeed,
+  the next attempt answers `TxTimeout`, leaves nothing pending, and `pre_send` never answers success
+  for it;
+* `stops_only_by_matching_ack`, `one_ack_suffices`: the pending retransmission disappears on receive
+  only through an acknowledgement of exactly its counter, and one such acknowledgement is enough;
+* `backoff_monotone_attempt`, `backoff_monotone_jitter`, `backoff_lower_bound`,
+  `backoff_actual_ge_spec`: the delay ladder is monotone and never below the protocol's lower bound
+  `base · 1.1 · 1.6^max(0, n−1)` — up to the stated rounding of the integer ladder, and without any
+  allowance for the jitter value the sender loop really uses when `base ≥ 200 ms`;
+* `reliable_message_gets_acked`: an accepted message that requested an acknowledgement leaves an
+  acknowledgement pending, and the next message sent on the exchange carries it.
+System-level clauses (in-order delivery across the two nodes, success ⇒ the peer's stack accepted
+the counter, duplicate ⇒ fresh standalone ack by `handle_rx_packet`) are not theorems here; see
+`docs/C09.md`.
+-/
+namespace C09
+open Transport
+
+/-! ## At most once -/
+
+/-- receive a sequence of headers on a session; returns the final session, the counters the
+de-duplication accepted and the counters that reached an exchange (`post_recv = Ok`), newest first -/
+def runRx : Sess → List Nat → List Nat → List (RxHdr × Nat) → Sess × List Nat × List Nat
+  | s, acc, del, [] => (s, acc, del)
+  | s, acc, del, (h, now) :: rest =>
+    let dd := (Dedup.postRecv s.rx h.ctr s.mode.enc false).2
+    let r := s.postRecv h now
+    let ok := match r.2 with
+      | .ok _ => true
+      | .error _ => false
+    runRx r.1 (if dd then h.ctr :: acc else acc) (if ok then h.ctr :: del else del) rest
+
+theorem postRecv_rx_mode (s : Sess) (h : RxHdr) (now : Nat) :
+    (s.postRecv h now).1.rx = (Dedup.postRecv s.rx h.ctr s.mode.enc false).1 ∧
+    (s.postRecv h now).1.mode = s.mode ∧
+    (∀ b, (s.postRecv h now).2 = .ok b → (Dedup.postRecv s.rx h.ctr s.mode.enc false).2 = true) := by
+  have hset : ∀ (t : Sess) i m, (t.setMrp i m).rx = t.rx ∧ (t.setMrp i m).mode = t.mode := by
+    intro t i m; unfold Sess.setMrp; split <;> exact ⟨rfl, rfl⟩
+  have hadd : ∀ (t t' : Sess) id role i, t.addExch id role = some (t', i) → t'.rx = t.rx ∧ t'.mode = t.mode := by
+    intro t t' id role i h
+    unfold Sess.addExch at h
+    simp only at h
+    split at h
+    · simp only [Option.some.injEq, Prod.mk.injEq] at h; obtain ⟨h1, _⟩ := h; subst h1; exact ⟨rfl, rfl⟩
+    · split at h
+      · simp only [Option.some.injEq, Prod.mk.injEq] at h; obtain ⟨h1, _⟩ := h; subst h1; exact ⟨rfl, rfl⟩
+      · simp at h
+  unfold Sess.postRecv
+  simp only
+  cases hd : (Dedup.postRecv s.rx h.ctr s.mode.enc false).2 with
+  | false => simp
+  | true =>
+    simp only [Bool.not_true, Bool.false_eq_true, ↓reduceIte]
+    split
+    · split
+      · generalize (Mrp.postRecv _ h.ctr h.ack h.reliable now) = P
+        obtain ⟨m, err⟩ := P
+        cases err <;> simp [(hset _ _ _).1, (hset _ _ _).2]
+      · simp
+    · split
+      · simp
+      · split
+        · simp
+        · split
+          · rename_i s' i ha
+            have := hadd _ _ _ _ _ ha
+            generalize (Mrp.postRecv _ h.ctr h.ack h.reliable now) = P
+            obtain ⟨m, err⟩ := P
+            cases err <;> simp [(hset _ _ _).1, (hset _ _ _).2, this.1, this.2]
+          · simp
+
+theorem inv_unsynced : C04.Inv Dedup.RxState.unsynced [] := by
+  refine ⟨fun _ => rfl, ?_, ?_, ?_⟩
+  · intro h; simp [Dedup.RxState.unsynced] at h
+  · intro a h; simp at h
+  · intro h; simp [Dedup.RxState.unsynced] at h
+
+theorem runRx_facts (hs : List (RxHdr × Nat)) : ∀ (s : Sess) (acc del : List Nat),
+    s.mode.enc = true → C04.Inv s.rx acc → acc.Nodup → del.Sublist acc →
+    (runRx s acc del hs).2.1.Nodup ∧ (runRx s acc del hs).2.2.Sublist (runRx s acc del hs).2.1 := by
+  induction hs with
+  | nil => intro s acc del _ _ hn hsub; exact ⟨hn, hsub⟩
+  | cons x rest ih =>
+    intro s acc del henc hinv hn hsub
+    obtain ⟨h, now⟩ := x
+    simp only [runRx]
+    have hpr := postRecv_rx_mode s h now
+    have hplain : Dedup.postRecv s.rx h.ctr s.mode.enc false = Dedup.postRecvPlain s.rx h.ctr true := by
+      simp [Dedup.postRecv, henc]
+    have href := C04.step_refines s.rx acc h.ctr hinv
+    rw [← hplain] at href
+    apply ih
+    · rw [hpr.2.1]; exact henc
+    · rw [hpr.1]; exact href.2
+    · cases hd : (Dedup.postRecv s.rx h.ctr s.mode.enc false).2 with
+      | false => simpa using hn
+      | true =>
+        simp only [↓reduceIte]
+        have hspec : Dedup.specAccept acc h.ctr = true := by rw [← href.1]; exact hd
+        have hnot : h.ctr ∉ acc := by
+          intro hin
+          rw [C04.spec_false_mem acc h.ctr hin] at hspec
+          simp at hspec
+        exact List.nodup_cons.2 ⟨hnot, hn⟩
+    · cases hr : (s.postRecv h now).2 with
+      | error e =>
+        simp only [Bool.false_eq_true, ↓reduceIte]
+        by_cases hd : (Dedup.postRecv s.rx h.ctr s.mode.enc false).2 = true
+        · simp only [hd, ↓reduceIte]; exact List.Sublist.cons _ hsub
+        · simp only [hd]; exact hsub
+      | ok b =>
+        have := hpr.2.2 b hr
+        simp only [this, ↓reduceIte]
+        exact List.Sublist.cons_cons _ hsub
+
+/-- **At most once**: on a fresh secure session, whatever sequence of headers arrives (any loss,
+duplication, delay, reordering, any exchange ids / flags / acknowledgements), no counter reaches the
+exchange layer twice. -/
+theorem at_most_once (s : Sess) (hs : List (RxHdr × Nat)) (henc : s.mode.enc = true)
+    (hfresh : s.rx = Dedup.RxState.unsynced) : (runRx s [] [] hs).2.2.Nodup := by
+  have h := runRx_facts hs s [] [] henc (by rw [hfresh]; exact inv_unsynced) List.nodup_nil (List.Sublist.refl _)
+  exact List.Nodup.sublist h.2 h.1
+
+/-- non-vacuity: duplicates and a reordered first-timer — 5 accepted, 5 again rejected, 7 accepted,
+6 (overtaken, first time) accepted, 6 again rejected. -/
+example :
+    let h (c : Nat) : RxHdr × Nat := ({ ctr := c, exch := 1, initiator := true, ack := none, reliable := true, newOk := true }, 0)
+    (runRx ({ uid := 0, ctr := 0, mode := .pase } : Sess) [] [] [h 5, h 5, h 7, h 6, h 6]).2.2 = [6, 7, 5] := by
+  decide
+
+/-! ## Give-up -/
+
+/-- the retransmission budget -/
+def budget : Nat := Consts.mrpMaxTransmissions
+
+/-- `k` retransmissions of the pending message in a row (no acknowledgement arrives); returns the
+state and the results of the attempts -/
+def retransmitK (hdrAck sai : Option Nat) : Nat → Mrp → Mrp × List (Option Err)
+  | 0, m => (m, [])
+  | k + 1, m =>
+    match m.retrans with
+    | none => (m, [])
+    | some r =>
+      let res := m.preSend r.ctr true hdrAck sai
+      let rest := retransmitK hdrAck sai k res.1
+      (rest.1, res.2.2 :: rest.2)
+
+theorem retransmitK_ok (hdrAck sai : Option Nat) (k : Nat) : ∀ (m : Mrp) (r : Retrans),
+    m.retrans = some r → r.count + k ≤ budget →
+    (retransmitK hdrAck sai k m).2 = List.replicate k none ∧
+    ∃ r', (retransmitK hdrAck sai k m).1.retrans = some r' ∧ r'.ctr = r.ctr ∧ r'.count = r.count + k := by
+  induction k with
+  | zero => intro m r hr _; exact ⟨rfl, r, hr, rfl, rfl⟩
+  | succ k ih =>
+    intro m r hr hb
+    have hlt : r.count < Consts.mrpMaxTransmissions := by unfold budget at hb; omega
+    have hstep := preSend_retrans_ok m r hdrAck sai hr hlt
+    simp only [retransmitK, hr]
+    rw [hstep]
+    simp only
+    have := ih { retrans := some { r with count := r.count + 1 }, ack := m.ack.map (fun a => { a with acked := true }), recvAt := none }
+      { r with count := r.count + 1 } rfl (by simp only; omega)
+    refine ⟨by rw [this.1]; rfl, ?_⟩
+    obtain ⟨r', h1, h2, h3⟩ := this.2
+    exact ⟨r', h1, h2, by rw [h3]; simp only; omega⟩
+
+/-- **Give-up after the budget**: starting from the first transmission of a reliable message
+(`pre_send` created the entry), `budget` retransmissions are allowed, and the attempt after them
+answers `TxTimeout` and leaves neither a pending retransmission nor a pending acknowledgement. -/
+theorem gives_up_after_budget (m : Mrp) (c : Nat) (hdrAck sai : Option Nat) (hm : m.retrans = none) :
+    let m0 := (m.preSend c true hdrAck sai).1
+    (retransmitK hdrAck sai (budget + 1) m0).2 = List.replicate budget none ++ [some .txTimeout] ∧
+    (retransmitK hdrAck sai (budget + 1) m0).1.retrans = none ∧
+    (retransmitK hdrAck sai (budget + 1) m0).1.ack = none := by
+  simp only
+  have h0 : (m.preSend c true hdrAck sai).1.retrans = some (Retrans.new sai c) := by
+    unfold Mrp.preSend; simp [hm]
+  generalize (m.preSend c true hdrAck sai).1 = m0 at h0
+  -- split `budget + 1` attempts into `budget` successful ones and the last
+  have key : ∀ k (m : Mrp), retransmitK hdrAck sai (k + 1) m =
+      ((retransmitK hdrAck sai 1 (retransmitK hdrAck sai k m).1).1,
+       (retransmitK hdrAck sai k m).2 ++ (retransmitK hdrAck sai 1 (retransmitK hdrAck sai k m).1).2) := by
+    intro k
+    induction k with
+    | zero => intro m; simp [retransmitK]
+    | succ k ih =>
+      intro m
+      cases hr : m.retrans with
+      | none => simp [retransmitK, hr]
+      | some r =>
+        have := ih (m.preSend r.ctr true hdrAck sai).1
+        simp only [retransmitK, hr] at this ⊢
+        rw [this]
+        simp
+  have hok := retransmitK_ok hdrAck sai budget m0 (Retrans.new sai c) h0 (by simp [Retrans.new])
+  obtain ⟨r', hr', hc', hcount⟩ := hok.2
+  rw [key budget m0, hok.1]
+  have hnot : ¬ r'.count < Consts.mrpMaxTransmissions := by
+    rw [hcount]; simp [Retrans.new, budget]
+  have hto := preSend_retrans_timeout (retransmitK hdrAck sai budget m0).1 r' hdrAck sai hr' hnot
+  simp only [retransmitK, hr']
+  exact ⟨by rw [hto.1], hto.2.1, hto.2.2⟩
+
+/-- the give-up is an error of `Session::pre_send` (never `Ok`), and the error is `TxTimeout` -/
+theorem giveup_is_timeout_not_success (s : Sess) (i : Nat) (e : Exch) (r : Retrans) (ha sai : Option Nat)
+    (hs : s.slot i = some e) (hr : e.mrp.retrans = some r) (hb : ¬ r.count < Consts.mrpMaxTransmissions) :
+    (s.preSend (some i) true ha sai).2 = .error .txTimeout := by
+  have hto := preSend_retrans_timeout e.mrp r ha sai hr hb
+  unfold Sess.preSend
+  simp only [hs, hr, Option.map_some]
+  generalize hP : e.mrp.preSend r.ctr true ha sai = P at hto
+  obtain ⟨m', oa, err⟩ := P
+  simp only at hto
+  rw [hto.1]
+
+example : ∃ r : Retrans, ¬ r.count < Consts.mrpMaxTransmissions := ⟨{ base := 300, ctr := 1, count := 5 }, by decide⟩
+
+/-! ## Success only through the matching acknowledgement -/
+
+/-- a received message ends the pending retransmission only if it acknowledges exactly that counter -/
+theorem stops_only_by_matching_ack (m : Mrp) (r : Retrans) (rxCtr : Nat) (ackOpt : Option Nat) (rel : Bool)
+    (now : Nat) (hr : m.retrans = some r) (hstop : (m.postRecv rxCtr ackOpt rel now).1.retrans = none) :
+    ackOpt = some r.ctr := by
+  have h := postRecv_pending m r rxCtr ackOpt rel now hr
+  simp only at h
+  cases ackOpt with
+  | none => have := (h.2.2 rfl).2.1; rw [hstop] at this; simp at this
+  | some a =>
+    by_cases ha : a = r.ctr
+    · rw [ha]
+    · have := h.2.1 a rfl ha
+      rw [this] at hstop
+      simp [hr] at hstop
+
+/-- one transmission and one acknowledgement are enough: after the first `pre_send`, a message
+acknowledging that counter ends the retransmission and is itself processed (no error), so the sender
+loop's `wait_tx` answers `Done`. -/
+theorem one_ack_suffices (m : Mrp) (c rxCtr : Nat) (rel : Bool) (now : Nat) (hdrAck sai : Option Nat)
+    (hm : m.retrans = none) :
+    let m0 := (m.preSend c true hdrAck sai).1
+    (m0.postRecv rxCtr (some c) rel now).2 = none ∧ (m0.postRecv rxCtr (some c) rel now).1.retrans = none := by
+  simp only
+  have h0 : (m.preSend c true hdrAck sai).1.retrans = some (Retrans.new sai c) := by
+    unfold Mrp.preSend; simp [hm]
+  have h := postRecv_pending _ _ rxCtr (some c) rel now h0
+  simp only at h
+  exact h.1 (by simp [Retrans.new])
+
+/-- an accepted message that requested an acknowledgement leaves it pending, and the next message
+sent on the exchange carries it -/
+theorem reliable_message_gets_acked (m : Mrp) (rxCtr : Nat) (ackOpt : Option Nat) (now : Nat)
+    (hok : (m.postRecv rxCtr ackOpt true now).2 = none) (c : Nat) (rel : Bool) (ha sai : Option Nat) :
+    (m.postRecv rxCtr ackOpt true now).1.isAckPending = true ∧
+    ((m.postRecv rxCtr ackOpt true now).1.preSend c rel ha sai).2.1 = some rxCtr := by
+  have hack : (m.postRecv rxCtr ackOpt true now).1.ack = some { ctr := rxCtr, acked := false } := by
+    unfold Mrp.postRecv at hok ⊢
+    cases ackOpt <;> cases hm : m.retrans <;> simp [hm] at hok ⊢
+    split at hok <;> simp_all
+  refine ⟨by simp [Mrp.isAckPending, hack], ?_⟩
+  rw [preSend_outAck]
+  simp [outAckOf, Mrp.ackCtr, hack]
+
+/-! ## Back-off -/
+
+theorem scaleLoop_mono_d (k : Nat) : ∀ a b, a ≤ b → scaleLoop k a ≤ scaleLoop k b := by
+  induction k with
+  | zero => intro a b h; exact h
+  | succ k ih =>
+    intro a b h
+    simp only [scaleLoop]
+    apply ih
+    exact Nat.div_le_div_right (Nat.mul_le_mul_right _ h)
+
+theorem scaleLoop_ge (k : Nat) : ∀ d, d ≤ scaleLoop k d := by
+  induction k with
+  | zero => intro d; exact Nat.le_refl _
+  | succ k ih =>
+    intro d
+    simp only [scaleLoop]
+    have h1 : d ≤ d * Consts.mrpBackoffBaseNum / Consts.mrpBackoffBaseDen := by
+      show d ≤ d * 16 / 10
+      omega
+    exact Nat.le_trans h1 (ih _)
+
+theorem scaleLoop_succ (k d : Nat) : scaleLoop (k + 1) d = scaleLoop k d * Consts.mrpBackoffBaseNum / Consts.mrpBackoffBaseDen := by
+  induction k generalizing d with
+  | zero => rfl
+  | succ k ih => simp only [scaleLoop] at ih ⊢; rw [ih]
+
+theorem backoffBase_mono (base : Nat) (n n' : Nat) (h : n ≤ n') : backoffBase base n ≤ backoffBase base n' := by
+  have step : ∀ n, backoffBase base n ≤ backoffBase base (n + 1) := by
+    intro n
+    unfold backoffBase
+    simp only
+    by_cases h1 : n > Consts.mrpBackoffThreshold
+    · have h2 : n + 1 > Consts.mrpBackoffThreshold := by omega
+      simp only [h1, h2, ↓reduceIte]
+      have : n + 1 - Consts.mrpBackoffThreshold = (n - Consts.mrpBackoffThreshold) + 1 := by omega
+      rw [this, scaleLoop_succ]
+      show _ ≤ _ * 16 / 10
+      omega
+    · simp only [h1, ↓reduceIte]
+      split
+      · exact scaleLoop_ge _ _
+      · exact Nat.le_refl _
+  induction h with
+  | refl => exact Nat.le_refl _
+  | step _ ih => exact Nat.le_trans ih (step _)
+
+/-- the ladder never shrinks from one attempt to the next (same jitter) -/
+theorem backoff_monotone_attempt (base jitter n n' : Nat) (h : n ≤ n') :
+    backoffMs base n jitter ≤ backoffMs base n' jitter := by
+  unfold backoffMs
+  simp only
+  have hb := backoffBase_mono base n n' h
+  have : backoffBase base n * jitter * Consts.mrpJitterNum / (255 * Consts.mrpJitterDen) ≤
+      backoffBase base n' * jitter * Consts.mrpJitterNum / (255 * Consts.mrpJitterDen) :=
+    Nat.div_le_div_right (Nat.mul_le_mul_right _ (Nat.mul_le_mul_right _ hb))
+  omega
+
+theorem backoff_monotone_jitter (base n j j' : Nat) (h : j ≤ j') :
+    backoffMs base n j ≤ backoffMs base n j' := by
+  unfold backoffMs
+  simp only
+  have : backoffBase base n * j * Consts.mrpJitterNum / (255 * Consts.mrpJitterDen) ≤
+      backoffBase base n * j' * Consts.mrpJitterNum / (255 * Consts.mrpJitterDen) :=
+    Nat.div_le_div_right (Nat.mul_le_mul_right _ (Nat.mul_le_mul_left _ h))
+  omega
+
+/-- jitter only adds -/
+theorem backoff_ge_base (base n j : Nat) : backoffBase base n ≤ backoffMs base n j := by
+  unfold backoffMs; exact Nat.le_add_right _ _
+
+/-- rounding allowance (ms) of the integer ladder after `k` scaling steps -/
+def allowance : Nat → Nat
+  | 0 => 1 | 1 => 3 | 2 => 5 | 3 => 9 | _ => 15
+
+/-- **Protocol lower bound**: for every base interval, jitter and attempt `n ≤ budget`, the delay
+before retransmission `n+1` is at least `base · 1.1 · 1.6^max(0,n−1)` minus the rounding allowance
+of the integer ladder (1, 3, 5, 9, 15 ms for 0..4 scaling steps); written without fractions:
+`(delay + allowance) · 10^(k+1) ≥ base · 11 · 16^k`, `k = n − 1`. -/
+theorem backoff_lower_bound (base n j : Nat) (hn : n ≤ 5) :
+    (backoffMs base n j + allowance (n - 1)) * 10 ^ (n - 1 + 1) ≥ base * 11 * 16 ^ (n - 1) := by
+  have hj := backoff_ge_base base n j
+  have hcases : n = 0 ∨ n = 1 ∨ n = 2 ∨ n = 3 ∨ n = 4 ∨ n = 5 := by omega
+  rcases hcases with h | h | h | h | h | h <;> subst h <;>
+    simp only [backoffBase, Consts.mrpBackoffThreshold, Consts.mrpMarginNum, Consts.mrpMarginDen,
+      Consts.mrpBackoffBaseNum, Consts.mrpBackoffBaseDen, scaleLoop, allowance] at hj ⊢ <;>
+    simp at hj ⊢ <;> omega
+
+/-- **What the sender loop really waits**: with the jitter byte the code uses
+(`Consts.mrpJitterFixed`) or any larger one, and a base interval of at least 200 ms (the default is
+300 ms), the delay is never below the protocol's back-off — no allowance. -/
+theorem backoff_actual_ge_spec (base n j : Nat) (hn : n ≤ 5) (hb : 200 ≤ base) (hj : Consts.mrpJitterFixed ≤ j) :
+    backoffMs base n j * 10 ^ (n - 1 + 1) ≥ base * 11 * 16 ^ (n - 1) := by
+  have hmono := backoff_monotone_jitter base n Consts.mrpJitterFixed j hj
+  have hcases : n = 0 ∨ n = 1 ∨ n = 2 ∨ n = 3 ∨ n = 4 ∨ n = 5 := by omega
+  suffices h : backoffMs base n Consts.mrpJitterFixed * 10 ^ (n - 1 + 1) ≥ base * 11 * 16 ^ (n - 1) from
+    Nat.le_trans h (Nat.mul_le_mul_right _ hmono)
+  rcases hcases with h | h | h | h | h | h <;> subst h <;>
+    simp only [backoffMs, backoffBase, Consts.mrpBackoffThreshold, Consts.mrpMarginNum, Consts.mrpMarginDen,
+      Consts.mrpBackoffBaseNum, Consts.mrpBackoffBaseDen, Consts.mrpJitterFixed, Consts.mrpJitterNum,
+      Consts.mrpJitterDen, scaleLoop] <;>
+    simp <;> omega
+
+/-- the default ladder: 362, 362, 579, 926, 1482, 2371 ms (base 300, the code's jitter byte) -/
+example : (List.range 6).map (fun n => backoffMs 300 n Consts.mrpJitterFixed) = [362, 362, 579, 926, 1482, 2371] := by
+  decide
+
+/-- the integer ladder degenerates for tiny base intervals: base 1 ms stays at 1 ms on every step,
+the real-valued protocol formula gives 7.2 ms at the last one — covered by the allowance of
+`backoff_lower_bound`, excluded by `200 ≤ base` in `backoff_actual_ge_spec`. -/
+example : backoffMs 1 5 Consts.mrpJitterFixed = 1 := by decide
+
+end C09
